@@ -79,9 +79,25 @@ pub fn artifact_map(artifacts: &[ArtifactPathAndContent]) -> BTreeMap<String, Ve
         .collect()
 }
 
+/// The artifacts out of whatever `get_artifact_path_and_content` returns on success: the
+/// harness keeps building when a refactoring changes what travels alongside them.
+pub trait IntoArtifacts {
+    fn into_artifacts(self) -> Vec<ArtifactPathAndContent>;
+}
+impl IntoArtifacts for Vec<ArtifactPathAndContent> {
+    fn into_artifacts(self) -> Vec<ArtifactPathAndContent> {
+        self
+    }
+}
+impl<T> IntoArtifacts for (Vec<ArtifactPathAndContent>, T) {
+    fn into_artifacts(self) -> Vec<ArtifactPathAndContent> {
+        self.0
+    }
+}
+
 pub fn view_of_db(db: &Db) -> View {
     match get_artifact_path_and_content(db) {
-        Ok((artifacts, _stats)) => View::Artifacts(artifact_map(&artifacts)),
+        Ok(found) => View::Artifacts(artifact_map(&found.into_artifacts())),
         Err(diagnostics) => View::Diagnostics(
             diagnostics
                 .iter()
